@@ -565,6 +565,10 @@ func sessionChargingReservation(
 			requestedQuota = uint64(uint32(unitUsage.RequestedUnit.TotalVolume) * ue.UnitCost[rg])
 			ue.ReservedQuota[rg] -= int64(usedQuota)
 			NeedReserveQuota := !(ue.ReservedQuota[rg] > 0)
+			// The reservation must cover the requested quota, otherwise units would be granted on credit
+			if ue.ReservedQuota[rg] < int64(requestedQuota) {
+				NeedReserveQuota = true
+			}
 
 			if NeedReserveQuota {
 				reserveQuota := -uint64(ue.ReservedQuota[rg]) + requestedQuota
@@ -596,6 +600,11 @@ func sessionChargingReservation(
 						ue.RatingType[rg] = charging_datatype.REQ_SUBTYPE_DEBIT
 					}
 				}
+			}
+
+			// Only the money actually held for this rating group can be converted into granted units
+			if heldQuota := uint64(max(ue.ReservedQuota[rg], 0)); requestedQuota > heldQuota {
+				requestedQuota = heldQuota
 			}
 
 			sur.ServiceRating = &charging_datatype.ServiceRating{
